@@ -313,6 +313,8 @@ func cliEngine(c *Ctx) {
 		{"mirror", "@GOODID@"}, {"mirror", "@GOODID@", "--target=ca+file://@W@/wh2"}, {"mirror", "@GOODID@", "--target=ca+file://@W@/wh", "--source=ca+file://@W@/wh"},
 		{"mirror", "nocolon", "--target=ca+file://@W@/wh"}, {"mirror", "@GOODID@", "--target=http://127.0.0.1:1/x", "--source=ca+file://@W@/wh"},
 		{"mirror", "tar:zzzzzzzzzz", "--target=ca+file://@W@/wh", "--source=ca+file://@W@/wh"}, {"mirror", "git:abcd", "--target=ca+file://@W@/wh"},
+		// a directory whose listing names something that is gone by the time it is stat'ed (the descriptor used for the listing)
+		{"pack", "tar", "/proc/self/fd"}, {"--format=json", "pack", "tar", "/proc/self/fd"}, {"pack", "zip", "/proc/self/fd"}, {"pack", "tar", "/proc/self/task"},
 		{"--format=json", "unpack", "nocolonid", "@W@/dst"}, {"--format=json", "pack", "tar", "@W@/src"}, {"--format=bogus", "pack", "tar", "@W@/src"},
 	}
 	for _, v := range vecs {
